@@ -1,5 +1,5 @@
 SPECIFICATION Spec
-CONSTANTS Growth = 2 Mode = "bytes" MaxBits = 0 Wide = TRUE Lean = FALSE
+CONSTANTS Growth = 3 Mode = "values" MaxBits = 0 Wide = TRUE Lean = TRUE
 INVARIANT RoundTrip
 INVARIANT LengthInBLS
 INVARIANT WholeBytes
